@@ -12,7 +12,7 @@ import QtyModel.Registry
 namespace Qty.C19
 open Qty Qty.Features
 
-abbrev tbl : Table := Gen.Features.features
+abbrev tbl : Table := Gen.Features.featuresResolved
 
 /-- the executable closure is sound for cargo's resolution relation -/
 theorem stepSet_sound (req s : List Text) (hs : ∀ f ∈ s, Reach tbl req f) :
@@ -94,6 +94,13 @@ theorem imports_closed_all (req : List Text) (m g : Text) (hm : (m, g) ∈ gated
 theorem amount_type_unique :
     [[], [[102, 112, 100, 101, 99]]].all (fun feats => [[51, 50], [54, 52]].all (fun w =>
       (Gen.Features.amountCfgs.filter (fun p => cfgEval feats w p.2)).length == 1)) = true := by
+  decide +kernel
+
+/-- the amount type is selected by the feature `fpdec` alone: no other feature (in particular not
+`serde`, whose entry `fpdec?/serde-as-str` is a WEAK dependency feature) pulls `fpdec` in, so
+enabling further features never swaps `f64` for `Decimal` under existing code -/
+theorem only_fpdec_selects_decimal :
+    tbl.all (fun p => p.1 == [102, 112, 100, 101, 99] || !(closure tbl [p.1]).contains [102, 112, 100, 101, 99]) = true := by
   decide +kernel
 
 /-- the module of a derived quantity imports the modules of both operand types, and its feature
